@@ -17,7 +17,7 @@ RULE = (
     "pair, also right after an Unknown-quantity lookup of the same target; Convert(u->v,x) equals the target's from-base "
     "applied to the source's to-base of the same database, exactly; a user database that reuses shipped symbols with "
     "other definitions is alive and converting next to the shipped ones (both orders), each answering from its own "
-    "definitions. Non-trivial = u!=v, at least one "
+    "definitions. The same values handed over as one numpy array (the registered vectorised conversion) give the numbers of the float conversion for every ordered pair. Non-trivial = u!=v, at least one "
     "side has a conversion, x!=0; distinct key = (config, quantity type, u, v[, w])."
 )
 ASSUMPTIONS = [
@@ -138,6 +138,22 @@ class Sweep:
                     break
         su, ou = um.slope[u], um.offset[u]
         has_conv_u = db.unit_to_unit_info[u].tobase.__has_conversion__
+        # the same values handed over as one numpy array take another code path (the registered vectorised conversion):
+        # the same numbers come out, so the array path is as invertible, path-independent and monotone as the float path
+        import numpy
+
+        for v in units:
+            if v == u:
+                continue
+            sv, ov = um.slope[v], um.offset[v]
+            got = Convert(qt, u, v, numpy.array(values, dtype=numpy.float64))
+            for x, y, g in zip(values, row[v], list(got)):
+                ctx.ev()
+                if y != y or not core.close(float(g), y, (abs(ou) + abs(su * x) + abs(ov)) / sv + abs(y), REL):
+                    if y != y and g != g:
+                        continue
+                    ctx.record("ndarray_conversion_differs_from_float:%s:%s" % (self.cfg, qt), {"config": self.cfg, "qt": qt, "u": u, "v": v, "x": x, "kind": "ndarray"}, "Convert(%r,%r,%r,ndarray) gives %r for %r, the float conversion %r" % (qt, u, v, float(g), x, y))
+                    break
         # the Quantity route (cached to-base function of the source unit) gives the database's number, also right after
         # the Unknown quantity - which accepts any unit name and converts nothing - was asked for the same target
         qu = self.quantity_of(u)
